@@ -229,14 +229,15 @@ def good_json(rng, t, single=False):
     return rng.choice([("f", x) for x in FLOATS] + [("i", 0), ("i", 1000), ("i", -7), ("i", 2**63), ("i", 2**64)])
 
 
-def bad_json(rng, t, single=False):
-    """a declared value that does not fit data type t"""
+def bad_candidates(rng, t, single=False):
+    """every class of declared value that does not fit data type t"""
     arr = t >= 12 and not single
     base = t - 12 if t >= 12 else t
     c = []
     if arr:
-        c += [good_json(rng, base), ("a", [good_json(rng, base), bad_json(rng, base)]), ("o",)]
-        return rng.choice(c)
+        c += [good_json(rng, base), ("o",)]
+        c += [("a", [good_json(rng, base), b]) for b in bad_candidates(rng, base)]
+        return c
     c += [("a", [good_json(rng, base)]), ("o",)]
     if base == 0:
         c += [("i", 5), ("b", True)]
@@ -246,10 +247,54 @@ def bad_json(rng, t, single=False):
         c += [("s", "5"), ("b", False)]
         if base in RANGE:
             lo, hi = RANGE[base]
-            c += [("i", hi + 1), ("i", lo - 1), ("f", "1.5"), ("f", "1.0"), ("i", 2**64)]
+            c += [("i", hi + 1), ("i", lo - 1), ("f", "1.5"), ("f", "1.0"), ("i", 2**64), ("i", 2 * hi + 1),
+                  ("i", 65535 if hi < 65535 else 2**32 - 1 if hi < 2**32 - 1 else 2**63 if hi < 2**63 else 2**65)]
         if base == 10:
             c += [("f", x) for x in F32_OVERFLOW] + [("i", 2**200)]
-    return rng.choice(c)
+    return c
+
+
+def bad_json(rng, t, single=False):
+    """a declared value that does not fit data type t"""
+    return rng.choice(bad_candidates(rng, t, single))
+
+
+def boundary_values(t):
+    """declared values at the edge of data type t (all must load and be carried over exactly)"""
+    base = t - 12 if t >= 12 else t
+    if base in RANGE:
+        lo, hi = RANGE[base]
+        return [("i", lo), ("i", hi), ("i", 0 if lo <= 0 else lo)]
+    if base == 10:
+        return [("f", "3.4028235e38"), ("f", "-3.4028235e38"), ("i", 2**64 - 1), ("f", "1e-50"), ("f", "16777217.0")]
+    if base == 11:
+        return [("f", "1e300"), ("i", 2**64), ("i", -2**63), ("f", "0.1")]
+    if base == 0:
+        return [("s", ""), ("s", "\u00e9")]
+    return [("b", True), ("b", False)]
+
+
+def grid_cases(rng):
+    """one-leaf documents: every data type x {min, max, allowed, default} x every class of unfitting
+    value, and the same with values at the edge of the type"""
+    docs = []
+    for t in range(24):
+        for field in ("min", "max", "allowed", "default"):
+            single = field in ("min", "max")
+            base = t - 12 if t >= 12 else t
+            if field == "allowed":
+                bads = [("a", [good_json(rng, base), b]) for b in bad_candidates(rng, base)] + [("i", 1), ("o",)]
+                goods = [("a", [b]) for b in boundary_values(t)]
+            else:
+                bads = bad_candidates(rng, t, single)
+                goods = [b if (single or t < 12) else ("a", [b]) for b in boundary_values(t)]
+            for kind, vals in (("bad", bads), ("good", goods)):
+                for v in vals:
+                    leaf = Node(type=2, dtype=t, desc="d")
+                    setattr(leaf, field, v)
+                    root = [("G", Node(type=0, desc="g", children=[("L", leaf)]))]
+                    docs.append((root, "grid-%s-%s" % (kind, field)))
+    return docs
 
 
 def gen_leaf(rng):
